@@ -1321,6 +1321,34 @@ func c08lzf(c *Ctx, r *Result) {
 			}
 		})
 		r.Check(maskOK && addOK, "C08.6", name+"#unpacks-same-fields", c.Pos(fn.Pos()), "decoder masks "+itoa(int(offBits-8))+" high offset bits and adds "+itoa(int(lenMax-255))+" to the long length byte")
+		// the run-length field is what is left of the control byte above the offset bits: (ctrl >> s) & m with
+		// s = offBits-8 and m covering all 8-s remaining bits; the short length is that field + 2
+		runOK, runAt := false, c.Pos(fn.Pos())
+		seenRun := false
+		instrs(fn, func(in ssa.Instruction) {
+			bo, ok := in.(*ssa.BinOp)
+			if !ok || bo.Op != token.AND {
+				return
+			}
+			m, okm := constInt(bo.Y)
+			sh, oks := stripConv(bo.X).(*ssa.BinOp)
+			if !okm || !oks || sh.Op != token.SHR {
+				return
+			}
+			s, okk := constInt(sh.Y)
+			if !okk || s != offBits-8 {
+				return
+			}
+			if b, isB := sh.X.Type().Underlying().(*types.Basic); !isB || b.Kind() != types.Uint8 {
+				return
+			}
+			seenRun = true
+			runAt = c.InstrPos(bo)
+			runOK = m == (int64(1)<<uint(8-s))-1
+		})
+		if seenRun {
+			r.Check(runOK, "C08.6", name+"#run-length-field-whole", runAt, "the short run length is taken from all "+itoa(int(8-(offBits-8)))+" bits of the control byte above the offset bits (a narrower mask shortens matches of 6 to 8 bytes)")
+		}
 	}
 	if n == 0 {
 		r.Errorf("C08.6: no call of appendBackref found")
